@@ -98,6 +98,11 @@ def to_wikitext(
             parts.append(node.sarg)
             for x in node.children:
                 parts.append(recurse(x))
+            if node.definition is not None:
+                # ";term:definition" -- the parser keeps the definition
+                # separately from the children (which hold the term)
+                parts.append(":")
+                parts.append(recurse(node.definition))
         elif kind == NodeKind.PRE:
             parts.append("<pre>")
             parts.append(recurse(node.children))
